@@ -279,6 +279,58 @@ CLAIMED = {
               "and by the harness' independent parser only; the IPv4 text has a proved round trip through an independent "
               "reader. Fixed finding: PROC_UNAVAIL was sent as 5 (SYSTEM_ERR)."),
         technique="Coq theorems (parser correctness, encoder/decoder round trip, dispatch) + extracted monitor on implementation output + model/implementation correspondence"),
+    "C14": dict(
+        text=("Coq theorems over the DNS responder model and proto::repl / reply(): an independent RFC 1035 codec "
+              "(Spec/RefDns.v: structured queries and messages, encoder, complete strict decoder; round trip, soundness, "
+              "every strict prefix is 'truncated') and a simulation theorem tying the model's parser to that reference "
+              "reader on EVERY input. For every well-formed query (any id, any flag word with QR clear, any number of "
+              "questions, every label layout incl. zero bytes inside labels, names up to 255 octets) consisting only of "
+              "IN/A questions and every IPv4 destination: the reply decodes completely to the expected response (same id, "
+              "QR=1, same opcode and RD, question section echoed byte for byte, one IN/A record per question owned by the "
+              "queried name with RDATA = the contacted address, QDCOUNT = ANCOUNT = number of questions, NSCOUNT = ARCOUNT "
+              "= 0, nothing left over); a message with a question that is not IN/A, every truncation, and every QR=1 "
+              "message is never answered; lifted through proto::repl (under 'no signature completed': udp_id = None) and "
+              "through reply() to emitted frames: for every frame, whatever reply() returns satisfies the monitor "
+              "ok_C14_udp. Tied to /repo by differential execution (ids with every high byte, flag grid, 0..40 questions, "
+              "label layouts, address/port grid, non-IN/A at every position, all truncations, records in other sections, "
+              "pointers, polyglots) and by evaluating the extracted monitor and an independent Python DNS reader on the "
+              "implementation's replies."),
+        design="DESIGN.md sections 5 (C14) and 10.7",
+        note=("Trusted: Coq kernel/vm_compute, extraction + OCaml driver, harness incl. its Python oracle; correspondence is "
+              "testing; pnet accessor semantics modelled. 'Not itself completing another protocol's signature' is the "
+              "hypothesis udp_id = None (compiled matcher), related to the published signature list by C10; the Python "
+              "oracle uses the published list directly. AA/TC/RA/Z/RCODE and TTLs are not constrained by the text and are "
+              "left free. Outside the property, recorded as observations: trailing bytes are ignored, ANCOUNT != 0 is "
+              "tolerated, NSCOUNT/ARCOUNT != 0 (EDNS) is never answered, compression pointers in questions are not "
+              "followed, over IPv6 the A record has empty RDATA, a 20-byte query with id 1 and flags 0 is answered by STUN. "
+              "Fixed finding: a zero byte inside a label ended the name (621c947)."),
+        technique="Coq theorems (reference codec round trip + parser simulation on all inputs + frame-level lift) + extracted monitor and Python oracle on implementation output + model/implementation correspondence"),
+    "C15": dict(
+        text=("Coq theorems over the STUN responder model, proto::repl and reply(): an independent RFC 5389 / RFC 3489 codec "
+              "(Spec/RefStun.v: class/method bit layout, TLVs with padding, strict request and response readers; round "
+              "trips and soundness). For every well-formed Binding Request (any 128-bit transaction id, any attribute "
+              "list incl. unknown types, zero-length and odd-length values with arbitrary padding bytes, trailing bytes), "
+              "the reply decodes to a Binding Success Response with the same id, length field = bytes that follow, exactly "
+              "one MAPPED-ADDRESS = (IP version, source port, source address); the reply port is (dport+1) mod 2^16 iff "
+              "some CHANGE-REQUEST has the change-port flag and all other client information is unchanged; other classes "
+              "and methods, and every truncation, get nothing; the exact set of answered payloads is characterised "
+              "(C15_answered_iff). Lifted through proto::repl (UDP and first TCP segment, identification as hypothesis) "
+              "and for UDP through reply() to the emitted frame's ports. Tied to /repo by differential execution (all "
+              "classes x methods, attribute lists of all shapes, malformed TLVs, length lies, truncations, ports incl. "
+              "0 / 65535 wrap, both transports and IP versions) and by the extracted monitors and an independent Python "
+              "STUN reader on the implementation's replies."),
+        design="DESIGN.md sections 5 (C15) and 10.7",
+        note=("Trusted: Coq kernel/vm_compute, extraction + OCaml driver, harness incl. its Python oracle; correspondence is "
+              "testing. Identification is a hypothesis of the theorems: published binding requests that the compiled "
+              "matcher does not identify (magic cookie with a zero length high byte, i.e. shorter than 276 bytes, unless "
+              "they fit the two end-anchored layouts; always over TCP) are the known class stun_shadowed (C10 finding), "
+              "decided by an extracted predicate and refuted by kernel-computed witnesses. The text does not demand silence "
+              "on malformed attribute lists: the statement 'every malformed message is ignored' is REFUTED of the model "
+              "(stray bytes / a header without value / a missing final padding at the end of the list are tolerated) and "
+              "recorded as an observation; proved is the partial form and the exact characterisation. No frame-level TCP "
+              "lift (proto level only). Fixed findings: method decoding (5c1d1a4), port shifted once per CHANGE-REQUEST "
+              "(656596d), RFC 5389 padding (eaff8f8), panics on malformed attributes (79978bd)."),
+        technique="Coq theorems (reference codec round trips, handler correctness for all attribute lists, exact answered set, UDP frame lift) + extracted monitors and Python oracle on implementation output + model/implementation correspondence"),
 }
 
 ALL = ["C%02d" % i for i in range(1, 21)]
@@ -308,7 +360,8 @@ def main():
             "guard": "cargo feature `verif`",
             "enable": "cargo build --offline --features verif --target-dir /verif/.cache/target (MASSCANNED_VERIF=1 selects the line-protocol driver at run time)",
             "baseline_off_cmd": "cd /repo && cargo test --workspace --no-fail-fast --offline",
-            "source_commits": ["verif hooks: cargo feature 'verif' with line-protocol driver, table dump, TCB table accessors"],
+            "source_commits": ["verif hooks: cargo feature 'verif' with line-protocol driver, table dump, TCB table accessors",
+                               "verif hooks: dump the SMB security blobs with the tables (feature 'verif')"],
             "add_only": True,
         },
         "engines": [{
